@@ -62,6 +62,15 @@ def main():
             if os.path.isdir(f"{wt}/skactiveml/tests") and "skactiveml/tests" not in test_dirs:
                 test_dirs.append("skactiveml/tests")
         test_dirs = sorted(set(test_dirs))
+        # prefer the test modules of the touched files (the sub-agents already ran the package level tests)
+        mods = []
+        for f in touched:
+            stem = os.path.basename(f)[:-3].lstrip("_")
+            cand = os.path.join(os.path.dirname(f), "tests", f"test_{stem}.py")
+            if os.path.exists(f"{wt}/{cand}"):
+                mods.append(cand)
+        if mods and len(mods) == len(touched) and not os.environ.get("SEED_PACKAGE_TESTS"):
+            test_dirs = sorted(set(mods + ["skactiveml/tests/test_base.py"]))
         if os.environ.get("SEED_FULL_TESTS"):
             test_dirs = ["skactiveml"]
         t0 = time.time()
